@@ -127,7 +127,7 @@ def _one_step(step, k, sc, model, current, prior, evs, n, sig):
 
 
 def gen_scenario(rng, tier):
-    atoms = rng.choice([2, 2, 3])
+    atoms = rng.choice([2, 2, 3]) if tier == "quick" else rng.choice([1, 2, 2, 3, 3, 4])
     sig = infer.SIG[:atoms]
     nw = 1 << atoms
     prior = [0] * nw if rng.random() < 0.3 else [rng.choice([0, 0, 1, 2]) for _ in range(nw)]
